@@ -261,15 +261,43 @@ func traceString(tr []schedEvent) string {
 type schedFamily struct {
 	name  string
 	types []reflect.Type
+	// pre, when set, runs on the shared instance before the workers start (a history
+	// the concurrent phase must not be affected by)
+	pre func(p *plenc.Plenc)
+}
+
+// PoolMaps: plain maps whose decode uses pooled key scratch
+type PoolMaps struct {
+	M map[int64]int64 `plenc:"1"`
+	K map[Inner2]int  `plenc:"2"`
+	S map[string]int  `plenc:"3"`
+}
+
+// failedMapDecodes: decodes of PoolMaps that fail inside an entry (after the key was read), several times
+func failedMapDecodes(p *plenc.Plenc) {
+	v := PoolMaps{M: map[int64]int64{5: 6}, K: map[Inner2]int{{X: 7, Y: "y"}: 1}, S: map[string]int{"k": 2}}
+	data, err := p.Marshal(nil, &v)
+	if err != nil {
+		return
+	}
+	for cut := 1; cut < len(data); cut++ {
+		var out PoolMaps
+		_ = p.Unmarshal(data[:cut], &out)
+		bad := append([]byte(nil), data...)
+		bad[cut] |= 0x80
+		_ = p.Unmarshal(bad, &out)
+	}
 }
 
 var schedFamilies = []schedFamily{
-	{"mutual", []reflect.Type{reflect.TypeOf(MutA{}), reflect.TypeOf(MutB{})}},
-	{"rec", []reflect.Type{reflect.TypeOf(Rec{}), reflect.TypeOf([]Rec{})}},
-	{"nested", []reflect.Type{reflect.TypeOf(Outer{}), reflect.TypeOf(Inner{})}},
-	{"recmap", []reflect.Type{reflect.TypeOf(RecMap{}), reflect.TypeOf(&RecMap{})}},
+	{"mutual", []reflect.Type{reflect.TypeOf(MutA{}), reflect.TypeOf(MutB{})}, nil},
+	{"rec", []reflect.Type{reflect.TypeOf(Rec{}), reflect.TypeOf([]Rec{})}, nil},
+	{"nested", []reflect.Type{reflect.TypeOf(Outer{}), reflect.TypeOf(Inner{})}, nil},
+	{"recmap", []reflect.Type{reflect.TypeOf(RecMap{}), reflect.TypeOf(&RecMap{})}, nil},
 	// one codec, several goroutines decoding different values at once (scratch keys, pools)
-	{"protomap", []reflect.Type{reflect.TypeOf(ProtoMapHolder{})}},
+	{"protomap", []reflect.Type{reflect.TypeOf(ProtoMapHolder{})}, nil},
+	// the same for plain maps, after decodes that failed part-way through an entry on this instance
+	{"poolpoison", []reflect.Type{reflect.TypeOf(PoolMaps{})}, failedMapDecodes},
 }
 
 // workerFor: first use of a type on a fresh instance: build the codec, marshal a
@@ -394,6 +422,9 @@ func execSched(s *Sexp) string {
 		want = append(want, guard(ws[i]))
 	}
 	pShared, ws := mk()
+	if f.pre != nil {
+		f.pre(pShared)
+	}
 	stepInvariant = func() string { return registryComplete(pShared) }
 	res := runScheduled(ws, schedule)
 	stepInvariant = nil
